@@ -444,6 +444,8 @@ type Task struct {
 	pendingLets map[string]Val
 	modelNames map[string]string // get-value term -> witness name
 	nfn        int
+	fnNames    []string // full names of the function identities declared in this task
+	useReentr  bool
 	quantDepth int
 	unfoldDepth int
 	lateFacts  []string          // facts about ghost identities: valid everywhere, added to every query
